@@ -293,6 +293,14 @@ def adjustDefinedNames (sheet : Str) (e : Edit) (names : List Str) (ds : List (S
 
 end Impl
 
+/-- the indices `a, a+1, …, b` -/
+def idxs (a b : Nat) : List Nat := List.range' a (b + 1 - a)
+
+/-- the cells `(col,row)` of a rectangle in row-major order (the order in which calc.go's range
+resolution lists them) -/
+def cellsOf (c1 r1 c2 r2 : Nat) : List (Nat × Nat) :=
+  (idxs r1 r2).flatMap (fun row => (idxs c1 c2).map (fun col => (col, row)))
+
 namespace Spec
 
 structure ColEnd where
@@ -496,6 +504,14 @@ def expectSlide (sheet sheetN : Str) (kr : Bool) (e : Edit) (tv : Str) : Option 
       let r' := slideRef kr e r
       if inGrid r' then some ((match pfx with | some p => p ++ ['!'] | none => []) ++ render r') else none
   else some tv
+
+/-- the cells of a reference in the order calc.go's `rangeResolver` reads them: corners sorted
+(`sortCoordinates`), then row by row, left to right. Only cells and ranges (whole rows/columns are
+clipped to the sheet's used area by calc.go and are not enumerated here). -/
+def refCells : Ref → List (Nat × Nat)
+  | .cell c r => [(c.n, r.n)]
+  | .range c1 r1 c2 r2 => cellsOf (min c1.n c2.n) (min r1.n r2.n) (max c1.n c2.n) (max r1.n r2.n)
+  | _ => []
 
 end Spec
 
